@@ -408,6 +408,16 @@ func v06WriteMarkers(dir, stream string, n int, idx uint64) {
 type v06Sink struct {
 	bytes.Buffer
 	cancelled bool
+	onWrite   func() // called once, inside the first Write (Persist is then in the middle of writing)
+}
+
+func (k *v06Sink) Write(p []byte) (int, error) {
+	n, err := k.Buffer.Write(p)
+	if f := k.onWrite; f != nil {
+		k.onWrite = nil
+		f()
+	}
+	return n, err
 }
 
 func (k *v06Sink) Close() error  { return nil }
@@ -511,6 +521,7 @@ func (r *v06Run) step(id int, step map[string]interface{}) v06Event {
 	a := vStr(step, "a")
 	args := map[string]interface{}{}
 	obs := v06Obs{A: a}
+	withSnap := false
 	skip := func() { obs.A, a = "Skip", "Skip" }
 	switch a {
 	case "Apply":
@@ -575,6 +586,42 @@ func (r *v06Run) step(id int, step map[string]interface{}) v06Event {
 		}
 		r.snapIdx = r.pendingIdx
 		r.pending = nil
+	case "PersistWith":
+		// fsmSnapshot.Persist concurrent with an apply: the operation is applied (on both
+		// servers) while Persist is writing to the sink (inside its first Write)
+		if r.pending == nil || r.mode != "live" {
+			skip()
+			break
+		}
+		o := step["o"].(map[string]interface{})
+		idx := r.applied + 1
+		errB := ""
+		sink := &v06Sink{}
+		sink.onWrite = func() {
+			obs.Err = v06ApplyErr(r.a, v06BuildOp(o), idx, false)
+			r.a.goroutineWait.Wait()
+			errB = v06ApplyErr(r.b, v06BuildOp(o), idx, false)
+			r.b.goroutineWait.Wait()
+		}
+		perr := r.pending.Persist(sink)
+		if obs.Err == "" && vStr(o, "op") == "CreateStream" {
+			v06WriteMarkers(r.dirA, vStr(o, "s"), int(vInt(o, "n")), idx)
+		}
+		r.log = append(r.log, o)
+		r.applied = idx
+		args["o"], args["rec"], args["errB"] = o, false, errB
+		withSnap = true
+		if perr != nil || sink.cancelled {
+			obs.Err = fmt.Sprintf("other:persist %v", perr)
+			break
+		}
+		r.snapBytes = append([]byte{}, sink.Bytes()...)
+		r.snapIdx = r.pendingIdx
+		r.pending = nil
+		if len(r.snapBytes) < 4 || int(binary.BigEndian.Uint32(r.snapBytes[:4])) != len(r.snapBytes)-4 {
+			obs.Err = "other:size prefix"
+			// (kept as it is: a later Restore reads what was written)
+		}
 	case "Restart":
 		if r.mode != "live" {
 			skip()
@@ -692,7 +739,7 @@ func (r *v06Run) step(id int, step map[string]interface{}) v06Event {
 	default:
 		panic("unknown action " + a)
 	}
-	st, ot := r.state(a == "Persist")
+	st, ot := r.state(a == "Persist" || withSnap)
 	return v06Event{T: id, A: a, Args: args, St: st, Other: ot, Obs: obs}
 }
 
